@@ -147,7 +147,16 @@ theorem parseSize_plain (ds : Bytes) (hne : ds ≠ []) (hd : ds.all isDigit = tr
     | some b =>
       have hb : isDigit b = true := List.all_eq_true.mp hd b (List.mem_of_getLast? hl)
       have h2 : 48 ≤ b ∧ b ≤ 57 := by simpa [isDigit] using hb
-      split <;> first | rfl | (rename_i h; injection h with h; subst h; exact absurd h2 (by decide))
+      have hfind : GenC.sizeSuffixes.find? (·.1 == b) = none := by
+        rw [List.find?_eq_none]
+        intro x hx
+        have hx' : x.1 = 75 ∨ x.1 = 77 ∨ x.1 = 71 ∨ x.1 = 84 := by
+          simp only [GenC.sizeSuffixes, List.mem_cons, List.not_mem_nil, or_false] at hx
+          rcases hx with h | h | h | h <;> subst h <;> simp
+        simp only [beq_iff_eq]
+        intro hxb
+        rcases hx' with h | h | h | h <;> rw [h] at hxb <;> subst hxb <;> exact absurd h2 (by decide)
+      simp [hfind]
   have hplus : stripPlus ds = ds := by
     cases ds with
     | nil => rfl
